@@ -652,6 +652,14 @@ fn check(case: &Case, obs: &mut Obs) -> PropResult {
 
 	let dl = Served(served);
 	let got = block_on(get_maven_dependencies(&dl, &resolvers, &root_list))?.map_err(|e| format!("get_maven_dependencies failed on a universe inside the supported subset: {e:#}"))?;
+	// second use of the same downloader and resolvers: the same answer
+	if case.chain % 4 == 1 || case.libs.len() % 3 == 0 {
+		let again = block_on(get_maven_dependencies(&dl, &resolvers, &root_list))?.map_err(|e| format!("the second get_maven_dependencies with the same downloader failed: {e:#}"))?;
+		if again.len() != got.len() || again.iter().zip(got.iter()).any(|(a, b)| a.coord != b.coord || a.scope != b.scope || a.resolver.maven != b.resolver.maven) {
+			return Err("resolving the same roots a second time with the same downloader and resolvers gives another list".into());
+		}
+		obs.label("resolved_twice");
+	}
 	let got_list: Vec<(Coord, String, String)> = got
 		.iter()
 		.map(|f| (Coord { group: f.coord.group.clone(), artifact: f.coord.artifact.clone(), version: f.coord.version.clone(), classifier: f.coord.classifier.clone(), type_: f.coord.type_.clone() }, f.scope.to_string(), f.resolver.maven.to_string()))
